@@ -828,7 +828,11 @@ func (w *World) verifyCase(ct *Contract, caseIdx int) (res *FuncResult) {
 		o.Inputs = inputs
 		o.Results = resultTerms
 	}
-	if ct.ModGiven {
+	if ct.ModGiven && len(ct.Extra["trustframe"]) > 0 {
+		// "trustframe :: reason": the modifies clause is what callers assume, but it is not proved for this body
+		// (listed as an assumption); the other obligations of the function are proved
+		w.noteAssumed("frame of " + ct.FullName() + " (its modifies clause) is assumed, not proved: " + strings.Join(ct.Extra["trustframe"], "; "))
+	} else if ct.ModGiven {
 		f.frameObligations(rst, post, ct, pos)
 	}
 	for _, h := range w.genericPost {
